@@ -703,7 +703,10 @@ class _DataOperationContextInjectorProbeNode(_DataOperationNode):
     @classmethod
     def get_created_keys(cls) -> List[str]:
         """Return context keys injected by this node."""
-        return [cls.context_key]
+        keys = list(getattr(cls.processor, "get_created_keys", lambda: [])() or [])
+        if cls.context_key not in keys:
+            keys.append(cls.context_key)
+        return keys
 
     @override
     def _process_single_item_with_context(self, payload: Payload) -> Payload:
